@@ -2,6 +2,15 @@ package main
 
 func init() {
 	t := propTechnique
+	t["C01"] = "SSA ordering (view pinned before seqnum) + enum-switch exhaustiveness survey (AST+types)"
+	t["C03"] = "SSA lock-region dataflow, DB.mu lockset with requires-held summaries, value provenance, comparison-guard analysis"
+	t["C08"] = "enum-switch exhaustiveness survey (AST+types) + routing table check"
+	t["C17"] = "SSA guard dataflow with derived/iteration-local facts, enum-switch exhaustiveness"
+	t["C21"] = "SSA ordering / guard / lock-region dataflow, obligation-as-fact"
+	t["C23"] = "codec agreement on AST+types (tags, fields) + SSA obligation-as-fact (section terminator) + untrusted-size allocation check"
+	t["C31"] = "writer/reader table agreement recomputed from AST+SSA constants"
+	t["C45"] = "enum-switch exhaustiveness, SSA ordering, constructor-release obligation"
+	t["C46"] = "format-string / parse-switch key agreement on AST+types"
 	t["C04"] = "SSA resource pairing (acquire/release obligation-as-fact dataflow), who-may-write, ordering"
 	t["C06"] = "SSA error-gated dominance, who-may-call/write"
 	t["C07"] = "SSA lock-region + ordering dataflow, guarded CAS (ratchet), who-may-write"
